@@ -33,6 +33,10 @@ type Seg struct {
 	HorizonMs int `json:"horizon_ms,omitempty"`
 	// PeerFirst: in this burst the peers talk before the client does (other port first).
 	PeerFirst bool `json:"peer_first,omitempty"`
+	// Flood > 0: before the gap the application stops reading and a permitted peer sends this many
+	// datagrams (more than the relayed socket queues); it only resumes reading after the gap. What
+	// overflows may be dropped, the client's own upkeep (refreshes) must go on regardless.
+	Flood int `json:"flood,omitempty"`
 }
 
 // C14Case is a long-running client/server session; also the replay format.
@@ -63,6 +67,7 @@ type c14Result struct {
 	refused   int
 	atHorizon int
 	peerFirst int
+	floods    int
 	// sibling-port probes after an idle gap longer than the default permission lifetime
 	siblingAfterIdle int
 }
@@ -256,10 +261,30 @@ func runC14Inner(c *C14Case) (res c14Result) { //nolint:cyclop,gocyclo,maintidx
 	var rmu sync.Mutex
 	var got []rx
 	done := make(chan struct{})
+	// resume is non-nil while the application "does not read": the reader waits on it (a channel,
+	// because a goroutine waiting for a mutex would not count as blocked for the bubble)
+	var resume chan struct{}
+	pauseReader := func() {
+		rmu.Lock()
+		resume = make(chan struct{})
+		rmu.Unlock()
+	}
+	resumeReader := func() {
+		rmu.Lock()
+		close(resume)
+		resume = nil
+		rmu.Unlock()
+	}
 	go func() {
 		defer close(done)
 		buf := make([]byte, 2048)
 		for {
+			rmu.Lock()
+			ch := resume
+			rmu.Unlock()
+			if ch != nil {
+				<-ch
+			}
 			k, from, err := relay.ReadFrom(buf)
 			if err != nil {
 				return
@@ -280,7 +305,25 @@ func runC14Inner(c *C14Case) (res c14Result) { //nolint:cyclop,gocyclo,maintidx
 	}
 	seq := 0
 	for si, sg := range c.Segs {
+		flooded := false
+		if sg.Flood > 0 && written[0] && joined(0, si) {
+			// the application stops reading; peer 0 keeps sending
+			pauseReader()
+			flooded = true
+			for i := 0; i < sg.Flood; i++ {
+				_, _ = peers[0].WriteTo([]byte(fmt.Sprintf("flood seg=%d #%d", si, i)), relayAddr)
+				if i%64 == 63 {
+					synctest.Wait()
+				}
+			}
+			synctest.Wait()
+			res.floods++
+		}
 		time.Sleep(time.Duration(sg.GapS)*time.Second + 1100*time.Microsecond)
+		if flooded {
+			resumeReader()
+			synctest.Wait()
+		}
 		if sg.HorizonMs != 0 {
 			fmu.Lock()
 			// the server's default nonces carry a minute count and turn stale when it is 61 behind
@@ -469,6 +512,9 @@ func genC14(rt *rapid.T, maxHours int) *C14Case {
 		if rapid.IntRange(0, 9).Draw(rt, "refusedSeg") == 0 {
 			sg.Refused = rapid.IntRange(1, 2).Draw(rt, "refusedKind")
 		}
+		if len(c.Segs) > 0 && rapid.IntRange(0, 11).Draw(rt, "floodSeg") == 0 {
+			sg.Flood = rapid.SampledFrom([]int{1000, 1025, 1100, 1500, 3000}).Draw(rt, "flood")
+		}
 		c.Segs = append(c.Segs, sg)
 		total += gap
 	}
@@ -572,6 +618,9 @@ func TestC14(t *testing.T) {
 		}
 		if res.atHorizon > 0 {
 			r.Label("burst-right-at-nonce-horizon")
+		}
+		if res.floods > 0 {
+			r.Label("reader-paused-under-flood")
 		}
 		if res.peerFirst > 0 {
 			r.Label("peers-speak-first")
